@@ -116,6 +116,44 @@ def check_case(ctx, case):
     m_again = H.mineral()
     H.run(m_again)
     ctx.check("d:determinism_bit_identical", _same(m_again, m_multi), case)
+    # (d') checkpoint / restart: a mineral saved to an NPZ archive half-way and restored through either loader is the
+    # same mineral (no state lives outside the stored history), so the continued run is bit-identical to the straight one
+    if H.N >= 2:
+        import os
+        import tempfile
+
+        k = H.N // 2
+        m_a = H.mineral()
+        skw = H.solver_kw()
+        gr = H.get_regime_fn()
+        try:
+            with warnings.catch_warnings():
+                warnings.simplefilter("ignore")
+                F = drive.relayout(H.F0, H.layout)
+                for (a, b) in zip(H.ts[:k], H.ts[1:k + 1]):
+                    F = m_a.update_orientations(H.params, F, H.Lfun, (a, b, H.posfun), get_regime=gr, **skw)
+                with tempfile.TemporaryDirectory(prefix="pvmon-c08-") as d:
+                    fn = os.path.join(d, "checkpoint.npz")
+                    via = ["from_file", "load", "from_file_postfix"][int(case["seed"]) % 3]
+                    if via == "from_file_postfix":
+                        m_a.save(fn, postfix="ckpt")
+                        m_b = pydrex.Mineral.from_file(fn, postfix="ckpt")
+                    else:
+                        m_a.save(fn)
+                        if via == "from_file":
+                            m_b = pydrex.Mineral.from_file(fn)
+                        else:
+                            m_b = pydrex.Mineral(n_grains=H.n)
+                            m_b.load(fn)
+                for (a, b) in zip(H.ts[k:-1], H.ts[k + 1:]):
+                    F = m_b.update_orientations(H.params, F, H.Lfun, (a, b, H.posfun), get_regime=gr, **skw)
+            ctx.check("d:restart_from_archive_bit_identical", _same(m_b, m_multi), case, via=via, at_update=k)
+            ctx.cls(f"restart_via={via}")
+        except Exception as e:
+            if drive.solver_gave_up(case, e):
+                ctx.count("solver_gave_up_under_user_tolerances")
+            else:
+                ctx.check("d:restart_from_archive_bit_identical", False, case, key=f"restart_raises/{type(e).__name__}", exc=str(e)[:200])
     # (e) no hidden state tied to the identity of the parameter dictionary: the *same dict object* is
     # mutated in place (different fractions) between two runs and must behave like a fresh dict
     phi2 = 1.0 - phi if abs(phi - 0.5) > 0.05 else 0.9
